@@ -27,7 +27,7 @@ func run(r *core.R) {
 	r.ProbeDecl("affinity_confirmed", "released", "reused_after_cooldown", "block_created", "block_deleted", "borrowed_from_non_affine_block",
 		"autoassign_acked", "autoassign_empty", "assignip_acked", "assignip_without_handle", "observed_release_rejected", "handle_tainted_by_fault", "restart", "liveness_checked",
 		"concurrent_same_host", "reclaim_of_foreign_empty_block_started", "owner_revives_claim_marked_for_deletion",
-		"confirmed_claim_without_block", "opportunist_claim")
+		"confirmed_claim_without_block", "opportunist_claim", "release_interrupted_after_pending_deletion")
 	w := newWorld(r)
 	w.or = newOracle(w)
 	w.st.OnWrite = append(w.st.OnWrite, w.or.onWrite)
@@ -63,6 +63,11 @@ func run(r *core.R) {
 		// the per-host cap is promised for serialised callers that go through auto-assignment only (DESIGN.md C20)
 		weights[opAssignIP], weights[opClaimAffinity], weights[opEnsureBlock] = 0, 0, 0
 		callersPerHost = 1
+		if r.Armed("C20") {
+			// releases of the host's own affinities (interrupted ones leave a block the host still holds)
+			weights[opReleaseAffinity] += 6
+			weights[opReleaseHostAffinities] += 3
+		}
 	}
 	pConflict := src.Intn(120, "p_conflict")
 	pError := src.Intn(40, "p_error")
@@ -119,7 +124,21 @@ func run(r *core.R) {
 			return sched.None
 		}
 		f := sched.None
-		if q.Write && src.Chance(pConflict, "f_conflict") && (q.Op == "update" || q.Op == "delete") {
+		if w.relMarked[q.Actor.Name] && q.Write && w.s.FaultsOn {
+			// directed: a release of the host's own affinity is interrupted right after it marked the claim
+			// pendingDeletion, before the block is deleted or stripped (transient error or crash of the releaser)
+			delete(w.relMarked, q.Actor.Name)
+			if (pError > 0 || pCrash > 0) && src.Chance(350, "f_interrupt_release") {
+				f = sched.ErrorBefore
+				if pCrash > 0 && src.Chance(400, "f_interrupt_release_crash") {
+					f = sched.CrashBefore
+				}
+				r.Probe("release_interrupted_after_pending_deletion")
+			}
+		}
+		if f != sched.None {
+			// chosen above
+		} else if q.Write && src.Chance(pConflict, "f_conflict") && (q.Op == "update" || q.Op == "delete") {
 			f = sched.Conflict
 		} else if src.Chance(pError, "f_error") {
 			f = sched.ErrorBefore
